@@ -28,13 +28,22 @@ def gen_case(r):
     ids = {"cb": 0, "svc": 0}
     started_svcs = []
 
+    def reg():
+        me = ids["cb"]
+        ids["cb"] += 1
+        kids = []
+        if r.random() < 0.2:
+            for _ in range(r.choice([1, 1, 2])):
+                kids.append([ids["cb"], r.random() < 0.6])
+                ids["cb"] += 1
+        return ["Reg", me, r.random() < 0.6, kids]
+
     def actions(n, where):
         out = []
         for _ in range(n):
             k = r.random()
             if k < 0.55:
-                out.append(["Reg", ids["cb"], r.random() < 0.6])
-                ids["cb"] += 1
+                out.append(reg())
             elif k < 0.8:
                 out.append(["Svc", ids["svc"]])
                 where.append(ids["svc"])
@@ -75,7 +84,7 @@ def gen_case(r):
             certain = [ids["svc"]]
             ids["svc"] += 1
         if kind == "Fail":
-            act = ["Fail"]
+            act = [r.choice(["Fail", "Fail", "FailBase"])]
         elif kind == "Hang":
             act = ["Hang"]
             timeout = 0.05
@@ -85,6 +94,15 @@ def gen_case(r):
             act = ["Crash", r.choice(certain)]
         pos = r.randrange(len(c[phase]) + 1)
         c[phase][pos:pos] = pre + [act]
+        if r.random() < 0.3:
+            # another component, neither above nor below the faulty one, is busy meanwhile and its cleanup
+            # fails when the startup is brought down
+            def family(x):
+                return [x] + [y for ch in x["children"] for y in family(ch)]
+            related = {id(x) for x in family(c)} | {id(x) for x in comps if any(y is c for y in family(x))}
+            others = [x for x in comps if id(x) not in related]
+            if others:
+                r.choice(others)["start"].append(["Linger"])
         fault = kind
 
     def strip(s):
@@ -99,8 +117,7 @@ def gen_case(r):
     for _ in range(r.choice([0, 0, 1, 2, 3])):
         k = r.random()
         if k < 0.5:
-            after.append(["Reg", ids["cb"], r.random() < 0.6])
-            ids["cb"] += 1
+            after.append(reg())
         elif k < 0.7:
             after.append(["Svc", ids["svc"]])
             all_svcs.append(ids["svc"])
@@ -136,7 +153,8 @@ HIST = ("Reg", "Svc", "Fail", "Hang", "Sig", "Crash", "Started", "RunEnds")
 def ev_term(o):
     k = o[0]
     if k == "Reg":
-        return f"(Reg {o[1]} {cbool(o[2])})"
+        kids = clist(f"({k_}%nat, {cbool(p)})" for k_, p in (o[3] if len(o) > 3 else []))
+        return f"(Reg {o[1]} {cbool(o[2])} {kids})"
     if k in ("Svc", "Crash"):
         return f"({k} {o[1]})"
     if k in ("Fail", "Hang", "Sig", "Started"):
@@ -239,15 +257,25 @@ def oracle(r):
                     "HangOver": "the startup did not time out", "NeverStarted": "the application never reported being started",
                     "DriverGaveUp": "nothing ended the application (a termination signal after startup was ignored?)"}[k]
             bad.append((f"C15:{k}", what))
-    regs = [o[1] for o in log if o[0] == "Reg"]
+    regs = []            # in the order of registration: kids are registered when their parent runs
+    expect = []
+    for o in [o for o in log if o[0] == "Reg"][::-1]:
+        expect += [o[1]] + [k for k, _ in (o[3] if len(o) > 3 else [])][::-1]
+    for o in log:
+        if o[0] == "Reg":
+            regs.append(o[1])
+    regs_all = regs + [k for o in log if o[0] == "Reg" for k, _ in (o[3] if len(o) > 3 else [])]
     tds = [o[1] for o in log if o[0] == "Td"]
-    if sorted(tds) != sorted(regs):
+    if sorted(tds) != sorted(regs_all):
+        regs = regs_all
         missing = [i for i in regs if i not in tds]
         twice = sorted({i for i in tds if tds.count(i) > 1})
         bad.append(("C15:callbacks-not-once", f"registered {regs}, ran {tds} (never ran: {missing}, more than once: {twice}); "
                     f"outcome {r['outcome']}"))
-    elif tds != regs[::-1]:
-        bad.append(("C15:callbacks-order", f"registered {regs}, ran in order {tds}"))
+    elif tds != expect:
+        bad.append(("C15:callbacks-order", f"registered {regs} (callbacks registering callbacks: "
+                    f"{[(o[1], o[3]) for o in log if o[0] == 'Reg' and len(o) > 3 and o[3]]}), ran in order {tds}, "
+                    f"LIFO order is {expect}"))
     first_td = kinds.index("Td") if "Td" in kinds else len(kinds)
     if any(k in HIST for k in kinds[first_td:]):
         bad.append(("C15:teardown-early", f"the application's code was still acting after the teardown had begun: {kinds}"))
